@@ -71,11 +71,12 @@ const (
 	KRec    // record, default merge (replace)
 	KRecCat // record, merge = concatenation of payloads
 	KInt64Aff // int64 with the order-sensitive merge v*3+d
+	KStrMin   // string whose merge keeps the smaller of value and delta (result may be shorter than the delta)
 	nKinds
 )
 
 var kindNames = []string{"int", "int16", "int32", "int64", "uint", "uint16", "uint32", "uint64",
-	"float32", "float64", "string", "stringcat", "enum", "bool", "key", "record", "recordcat", "int64aff"}
+	"float32", "float64", "string", "stringcat", "enum", "bool", "key", "record", "recordcat", "int64aff", "stringmin"}
 
 func (k Kind) String() string { return kindNames[k] }
 func (k Kind) Numeric() bool  { return k <= KF64 || k == KInt64Aff }
@@ -98,11 +99,13 @@ func (k Kind) Width() int {
 }
 func (k Kind) Stringy() bool { return k.Width() == -1 }
 func (k Kind) CanMerge() bool {
-	return (k.Numeric() && !k.Float()) || k == KStr || k == KStrCat || k == KRec || k == KRecCat
+	return (k.Numeric() && !k.Float()) || k == KStr || k == KStrCat || k == KRec || k == KRecCat || k == KStrMin
 }
 
 // LenChangingMerge: merging may change the stored length (finding K2 domain)
-func (k Kind) LenChangingMerge() bool { return k == KStr || k == KStrCat || k == KRec || k == KRecCat }
+func (k Kind) LenChangingMerge() bool {
+	return k == KStr || k == KStrCat || k == KRec || k == KRecCat || k == KStrMin
+}
 
 // Col is one value column of a generated schema.
 type Col struct {
@@ -157,6 +160,13 @@ func (c Col) Create(coll *column.Collection) error {
 			column.WithMerge(func(a, b *rec) *rec { return &rec{b: append(append([]byte(nil), a.b...), b.b...)} })))
 	case KInt64Aff:
 		return coll.CreateColumn(c.Name, column.ForInt64(column.WithMerge(aff)))
+	case KStrMin:
+		return coll.CreateColumn(c.Name, column.ForString(column.WithMerge(func(a, b string) string {
+			if a < b {
+				return a
+			}
+			return b
+		})))
 	}
 	return fmt.Errorf("bad kind")
 }
@@ -172,6 +182,8 @@ func (c Col) CoqCol() string {
 		return "(col_str merge_replace)"
 	case c.K == KStrCat || c.K == KRecCat:
 		return "(col_str merge_concat)"
+	case c.K == KStrMin:
+		return "(col_str merge_min)"
 	default:
 		return "col_plain"
 	}
@@ -199,7 +211,7 @@ func (c Col) Set(r column.Row, v Val) {
 		r.SetFloat32(c.Name, math.Float32frombits(uint32(v.N)))
 	case KF64:
 		r.SetFloat64(c.Name, math.Float64frombits(v.N))
-	case KStr, KStrCat:
+	case KStr, KStrCat, KStrMin:
 		r.SetString(c.Name, string(v.B))
 	case KEnum:
 		r.SetEnum(c.Name, string(v.B))
@@ -230,7 +242,7 @@ func (c Col) Merge(r column.Row, v Val) {
 		r.MergeUint32(c.Name, uint32(v.N))
 	case KUint64:
 		r.MergeUint64(c.Name, v.N)
-	case KStr, KStrCat:
+	case KStr, KStrCat, KStrMin:
 		r.MergeString(c.Name, string(v.B))
 	case KRec, KRecCat:
 		r.MergeRecord(c.Name, &rec{b: v.B})
@@ -270,7 +282,7 @@ func (c Col) Get(r column.Row) (Val, bool) {
 	case KF64:
 		v, ok := r.Float64(c.Name)
 		return Val{W: 8, N: math.Float64bits(v)}, ok
-	case KStr, KStrCat:
+	case KStr, KStrCat, KStrMin:
 		v, ok := r.String(c.Name)
 		return Val{W: -1, B: []byte(v)}, ok
 	case KEnum:
